@@ -297,6 +297,52 @@ def innerCover (mode : String) (c : Call) (stepsIv : Nat) {T : Type} (q : Settle
      | _ => "inner-call-from-other"]) ++
   (if q.inner.length ≥ 2 then ["inner-calls-2+-in-one-op"] else [])
 
+
+/-! ### which clause of the property a difference between the specification's and the code's observation breaks -/
+
+def pairToks (s : String) : List (Nat × String) :=
+  (s.splitOn " ").filterMap fun t =>
+    match t.splitOn ":" with
+    | [k, v] => k.toNat?.map fun k => (k, v)     -- the value may be `<nil>` (a dropped value)
+    | _ => none
+
+def otherToks (s : String) : List String :=
+  (s.splitOn " ").filter fun t => t != "" && (match t.splitOn ":" with
+    | [k, _] => !k.toNat?.isSome
+    | _ => true)
+
+/-- the clause of C12 (or of its client-side reading) that `spec ≠ impl` breaks, for the monitor message. -/
+def clauseOf (spec impl : String) (op : List String) : String :=
+  let sp := pairToks spec
+  let ip := pairToks impl
+  let drain := op.head? = some "drain"
+  if sp ≠ ip then
+    let keysS := sp.map (·.1)
+    let keysI := ip.map (·.1)
+    if ip.any (fun x => keysS.count x.1 ≥ 1 ∧ keysI.count x.1 > keysS.count x.1) then
+      (if drain then "Drain delivers each pending timer exactly ONCE" else "a timer fires exactly ONCE") ++ " (delivered more often than it was due)"
+    else if ip.any (fun x => ¬ keysS.contains x.1) then
+      (if drain then "Drain delivers the PENDING timers (a removed / fired / never set key was delivered)"
+       else "a timer fires at its due tick and at NO OTHER tick; a removed timer never fires (fired although not due)")
+    else if sp.any (fun x => ¬ keysI.contains x.1) ∨ keysS.length ≠ keysI.length then
+      (if drain then "Drain delivers EACH pending timer (one is missing)"
+       else "a timer fires at the floor(d/interval)-th tick after the most recent set or move (due, not fired)")
+    else "a timer fires carrying the MOST RECENTLY SET VALUE (right key and tick, wrong value)"
+  else
+    let io := otherToks impl
+    let so := otherToks spec
+    if io.any (·.startsWith "detached=") then
+      "most recent set/move/remove of a key = the client's program order: a request was still in flight when the operation that issued it returned"
+    else if io.any (·.startsWith "STALLED") ∨ io.any (·.startsWith "TIMEOUT") ∨ io.any (·.startsWith "BLOCKED") then
+      "every pending timer is delivered (the run loop / a public method no longer makes progress)"
+    else if (io.filter (·.startsWith "rq=")) ≠ (so.filter (·.startsWith "rq=")) then
+      "the requests an operation issues on the wheel (method, key, value, delay, order) decide which set/move/remove is the most recent"
+    else if (io.filter (·.startsWith "has=")) ≠ (so.filter (·.startsWith "has=")) then
+      "client: an entry is present exactly while its timer is pending (cache_entry_iff_pending_timer)"
+    else if io.any (·.startsWith "err") ∨ so.any (·.startsWith "err") ∨ io.any (·.startsWith "PANIC") ∨ so.any (·.startsWith "PANIC") ∨ so.any (·.startsWith "stopped") then
+      "API table: which calls are accepted / rejected / closed (api_validation_table, stop_then_silent)"
+    else "callbacks: what is handed to / issued by a callback (held, inner calls, take/get results)"
+
 def runCtor (r : Report) (s : Section) : Report := Id.run do
   let mut r := r
   for l in s.lines do
@@ -311,7 +357,7 @@ def runCtor (r : Report) (s : Section) : Report := Id.run do
         let impl := joinSp l.obs
         if want ≠ impl then
           r := r.mismatch s.idx l.idx want impl
-          r := r.violation s.idx l.idx s!"spec=[{want}] impl=[{impl}] op=[{joinSp l.op}]"
+          r := r.violation s.idx l.idx s!"spec=[{want}] impl=[{impl}] op=[{joinSp l.op}] clause=[NewTimingWheel rejects interval <= 0, numSlots <= 0, execute == nil]"
       | _, _, _ => r := r.mismatch s.idx l.idx "bad-op" (joinSp l.op)
     | _ => r := r.mismatch s.idx l.idx "bad-op" (joinSp l.op)
   return r
@@ -537,7 +583,7 @@ def runSched (r : Report) (s : Section) : Report := Id.run do
       | _ => pure ()
       if fired.length > 0 then r := r.addCover "fired" fired.length
       if m ≠ impl then r := r.mismatch s.idx l.idx m impl
-      if sm ≠ impl then r := r.violation s.idx l.idx s!"spec=[{sm}] impl=[{impl}] op=[{joinSp l.op}]"
+      if sm ≠ impl then r := r.violation s.idx l.idx s!"spec=[{sm}] impl=[{impl}] op=[{joinSp l.op}] clause=[{clauseOf sm impl l.op}]"
       a := a'
       sp := sp'
       st := st'
@@ -613,7 +659,7 @@ def runSection (r : Report) (s : Section) : Report := Id.run do
         let m := renderCb mode c a q.api res q
         let sm := renderCb mode c sp qs.api sres qs
         if m ≠ impl then r := r.mismatch s.idx l.idx m impl
-        if sm ≠ impl then r := r.violation s.idx l.idx s!"spec=[{sm}] impl=[{impl}] op=[{joinSp l.op}]"
+        if sm ≠ impl then r := r.violation s.idx l.idx s!"spec=[{sm}] impl=[{impl}] op=[{joinSp l.op}] clause=[{clauseOf sm impl l.op}]"
         a := q.api
         sp := qs.api
         ds := q.cb
